@@ -187,6 +187,9 @@ func RunAPI(h *APIHistory, res *vprop.Result) {
 					return
 				}
 				ids[op.Plan], submitted[op.Plan], submitAt[op.Plan] = id, true, time.Now()
+				if stored, rerr := inner.Read(ctx, id); rerr == nil && stored != nil {
+					plan = stored // ids from the stored plan, not from the caller's object
+				}
 				l.registerIDs(op.Plan, plan)
 			})
 		case OpSubmitInvalid:
